@@ -39,7 +39,12 @@ pub fn payload_chunks(c: &mut Case<'_>, max_chunks: usize, max_chunk: usize) -> 
 }
 
 /// a signed streaming upload; `datas` are the data chunks (the final empty chunk is appended)
-pub fn build_upload(c: &mut Case<'_>, mut datas: Vec<Vec<u8>>, upload_part: bool) -> Upload {
+pub fn build_upload(c: &mut Case<'_>, datas: Vec<Vec<u8>>, upload_part: bool) -> Upload {
+    build_upload_with(c, datas, upload_part, true)
+}
+
+/// `with_length == false`: the request carries no Content-Length at all (HTTP/1.1 chunked transfer coding, HTTP/2)
+pub fn build_upload_with(c: &mut Case<'_>, mut datas: Vec<Vec<u8>>, upload_part: bool, with_length: bool) -> Upload {
     datas.push(Vec::new());
     let (ak, sk) = if c.t.chance(64) { (AK2, SK2) } else { (AK1, SK1) };
     let signer = Signer { access_key: ak.into(), secret: sk.into(), region: "us-east-1".into(), service: "s3".into(), date16: now_date16(-1) };
@@ -59,7 +64,13 @@ pub fn build_upload(c: &mut Case<'_>, mut datas: Vec<Vec<u8>>, upload_part: bool
         ],
         body: Vec::new(),
     };
-    let seed = signer.sign_header(&mut req, STREAMING, &["content-encoding".into(), "x-amz-decoded-content-length".into(), "content-length".into()]);
+    let mut signed: Vec<String> = vec!["content-encoding".into(), "x-amz-decoded-content-length".into()];
+    if with_length {
+        signed.push("content-length".into());
+    } else {
+        req.headers.retain(|(n, _)| n != "content-length");
+    }
+    let seed = signer.sign_header(&mut req, STREAMING, &signed);
     let chunks = sigv4::sign_chunks(&signer, &seed, &datas);
     Upload { req, signer, seed, datas, chunks }
 }
@@ -105,6 +116,9 @@ enum Expect {
     ErrorAfter { max_chunks: usize },
     /// not asserted (garbage after the final chunk)
     DontCare,
+    /// a complete, correctly signed upload in a form the adapter may refuse outright (no Content-Length):
+    /// either refused before the backend runs, or handled like any complete upload
+    CompleteOrRefused,
 }
 
 fn random_cuts(c: &mut Case<'_>, len: usize) -> Vec<usize> {
@@ -127,6 +141,10 @@ fn judge(c: &mut Case<'_>, u: &Upload, body: &[u8], steps: Option<Vec<Step>>, fa
     let payload: Vec<u8> = u.datas.concat();
     c.set_sample(|| json!({"fault": fault, "chunks": u.datas.iter().map(Vec::len).collect::<Vec<_>>(), "encoded_len": body.len(), "expect": format!("{expect:?}"), "delivered": seen.bytes.len(), "body_error": seen.error, "status": seen.status}));
     if !seen.backend_called {
+        if matches!(expect, Expect::CompleteOrRefused) && seen.status >= 400 {
+            c.label("refused-outright");
+            return Ok(());
+        }
         return Err(c.fail(format!("upload-not-started:{fault}"), format!("backend not called: {} {:?}", seen.status, seen.code)));
     }
     // content length shown to the backend = declared decoded length
@@ -138,7 +156,7 @@ fn judge(c: &mut Case<'_>, u: &Upload, body: &[u8], steps: Option<Vec<Step>>, fa
     let is_prefix = payload.starts_with(&seen.bytes);
     let m = boundaries.iter().position(|&b| b == seen.bytes.len());
     match expect {
-        Expect::Complete => {
+        Expect::Complete | Expect::CompleteOrRefused => {
             if seen.error.is_some() || seen.bytes != payload {
                 return Err(c.fail(format!("complete-upload-failed:{fault}"), format!("complete upload of {} bytes: delivered {}, error {:?}", payload.len(), seen.bytes.len(), seen.error)));
             }
@@ -191,7 +209,7 @@ fn faults(c: &mut Case<'_>) -> CaseResult {
     let declared: usize = u.datas.iter().map(Vec::len).sum();
     let kinds = [
         "none", "none", "data-bit", "size-field", "signature", "swap", "duplicate", "delete", "resign-key", "resign-date", "resign-prev", "splice", "truncate", "garbage-after-final", "extra-chunk-after-final", "wrong-decoded-length",
-        "final-chunk-bad-signature", "signature-length",
+        "final-chunk-bad-signature", "signature-length", "no-content-length", "no-content-length-faulty",
     ];
     let mut fault = *c.t.pick(&kinds);
     let mut chunks = u.chunks.clone();
@@ -206,6 +224,22 @@ fn faults(c: &mut Case<'_>) -> CaseResult {
         _ => {}
     }
     match fault {
+        "no-content-length" | "no-content-length-faulty" => {
+            // the same upload without any Content-Length (and without signing one)
+            let u2 = build_upload_with(c, u.datas[..n_data].to_vec(), upload_part, false);
+            let mut ch = u2.chunks.clone();
+            if fault == "no-content-length-faulty" && n_data > 0 {
+                let k = c.t.below(n_data);
+                let i = c.t.below(ch[k].data.len());
+                ch[k].data[i] ^= 1 << c.t.below(8);
+                expect = Expect::ErrorAfter { max_chunks: k };
+            } else {
+                fault = "no-content-length";
+                expect = Expect::CompleteOrRefused;
+            }
+            body = sigv4::encode_chunks(&ch);
+            req_override = Some(u2.req.clone());
+        }
         "none" => body = sigv4::encode_chunks(&chunks),
         "data-bit" => {
             let k = c.t.below(n_data);
